@@ -95,6 +95,7 @@ type Upstream struct {
 	eventDispatcher *eventDispatcher
 
 	connState *connStatus
+	connEpoch uint64 // epoch of connState when the stream was bound to wireConn
 	state     *streamState
 
 	upstreamChunkResultChs map[uint32]chan *message.UpstreamChunkResult
@@ -311,8 +312,13 @@ func (u *Upstream) run(isResume bool) error {
 	}
 	eg.Go(func() error {
 		verifhook.Point("upstream.watch.start", u.ID.String())
+		u.mu.RLock()
+		epoch := u.connEpoch
+		u.mu.RUnlock()
 		u.connState.cond.L.Lock()
-		for !u.connState.IsWithoutLock(connStatusReconnecting) {
+		// wait until the wire connection this stream is bound to has been lost (a new reconnect epoch), not
+		// for the flag value: the outage may already be over when this goroutine looks at the status
+		for u.connState.EpochWithoutLock() == epoch {
 			select {
 			case <-ctx.Done():
 				u.connState.cond.L.Unlock()
